@@ -23,6 +23,8 @@ TX = odftext.TX
 
 
 def heading_text(rng, i):
+    if rng.random() < 0.08:
+        return ""     # a heading without any text is a heading (it is numbered and listed)
     return f"{rng.choice(TEXTS)} {i}"
 
 
@@ -194,7 +196,7 @@ def main(tier: str) -> int:
             live = doc.body.get_elements("descendant::text:h")
             live = [h for h in live if "table-of-content" not in (h.parent.tag if h.parent is not None else "")]
             if k < len(live):
-                live[k].text = "Edited " + (live[k].text or "")
+                live[k].text = ("Edited " + live[k].text) if live[k].text else "Edited"
                 toc.fill()
                 o3 = observe(doc)
                 want3, _ = expected_entries(spec_entries, o3["heads"], outline)
